@@ -57,6 +57,7 @@ class Fn:
         self.external = False
         self.has_ensures = False
         self.has_requires = False
+        self.ensures_false = False
         self.paste = None
 
     def props(self):
@@ -111,6 +112,8 @@ class Unit:
                 pending_safety = m.group(1).split()
             if "#[verifier::external_body]" in stripped or "#[verifier::external]" in stripped:
                 pending_external = True
+            if re.match(r"^\s*(pub(\([a-z]+\))?\s+)?(tracked\s+|ghost\s+)?(struct|enum)\b", code):
+                pending_external = False
             mm = MOD_RE.match(code)
             if mm:
                 ctx.append(("mod", mm.group(1), depth))
@@ -133,6 +136,8 @@ class Unit:
                     cur.has_ensures = True
                 if re.match(r"^\s*requires\b", code):
                     cur.has_requires = True
+                if re.match(r"^\s*ensures\s+false\s*,?\s*$", code):
+                    cur.ensures_false = True   # proof by contradiction: hypotheses are meant to be inconsistent
                 t = TAG_RE.search(l)
                 if t:
                     cur.clauses.append((i, t.group(1), t.group(2).split()))
@@ -190,6 +195,20 @@ class Unit:
                 if sp:
                     obs["%s:%s:safety" % (self.uname(f), f.qual)] = set(sp)
         return obs
+
+    def trusted(self):
+        out = []
+        for f in self.fns:
+            if f.external:
+                out.append("external_body (trusted contract): %s [unit %s]" % (f.qual, self.name))
+        for l in self.text.split("\n"):
+            if "assume_specification" in l.split("//")[0]:
+                out.append("assume_specification: %s [unit %s]" % (l.strip()[:120], self.name))
+            if re.search(r"\b(assume|admit)\s*\(", l.split("//")[0]):
+                out.append("assume/admit: %s [unit %s]" % (l.strip()[:120], self.name))
+            if "uninterp spec fn" in l.split("//")[0]:
+                out.append("uninterpreted ghost view: %s [unit %s]" % (l.strip()[:120], self.name))
+        return out
 
     # ---------------------------------------------------------------- verification
     def _run_verus(self, path, threads, rlimit, seed):
@@ -311,7 +330,7 @@ class Unit:
         lines = self.text.split("\n")
         expect = []
         for f in self.fns:
-            if f.external or f.mode == "spec" or not f.has_requires or f.qual.split("::")[-1].startswith("canary_"):
+            if f.external or f.mode == "spec" or not f.has_requires or f.ensures_false or f.qual.split("::")[-1].startswith("canary_"):
                 continue
             for i in range(f.line - 1, f.end):
                 if lines[i].strip() == "{":
